@@ -114,6 +114,13 @@ class ProtoExporter:
         if id(module) in self.modules_by_id:  # Already done
             return self.modules_by_id[id(module)].pmod
 
+        # A module which a failed elaboration pass may have left half-rewritten is never exported,
+        # however we got here - e.g. through a parent which was elaborated before the failure.
+        from ..elab.passes.base import ElabPass
+
+        if module in ElabPass.FAILED:
+            raise ElabPass.FAILED[module]
+
         if module.bundles:  # Invalid, should have been elaborated out.
             msg = f"Invalid attribute for Proto export: Module {module.name} with Bundles {list(module.bundles.keys())}"
             raise RuntimeError(msg)
